@@ -9,6 +9,7 @@ import (
 	"os/exec"
 	"path/filepath"
 	"strings"
+	"sync/atomic"
 	"time"
 
 	"verif/internal/gen/puppet"
@@ -513,6 +514,60 @@ func codecEndToEnd(e *Env, hostile [][]byte, rng *rand.Rand) {
 					}
 				}
 				R.Eval(fmt.Sprintf("e2e-status|%d|%d", code, step), true)
+			}
+		}
+		cl.Close()
+	}
+	// a streaming handler that sends replies and then fails: every reply arrives as a success, then its status, exactly once
+	for _, rbuf := range []uint{0, 16} {
+		var so []gorums.ServerOption
+		if rbuf > 0 {
+			so = append(so, gorums.WithReceiveBufferSize(rbuf))
+		}
+		cl, err := h.NewCluster(h.Options{N: 2, Block: true, DialTimeout: 2 * time.Second, ServerOpts: so})
+		if err != nil {
+			R.Inconc("cluster: " + err.Error())
+			continue
+		}
+		const K = 6
+		cl.SetBehaviour(func(c *h.HCall) (*puppet.Rep, error) {
+			if c.Send == nil {
+				return c.Rep(0), nil
+			}
+			for i := 0; i < K; i++ {
+				if err := c.Send(c.Rep(uint32(i))); err != nil {
+					return nil, err
+				}
+			}
+			return nil, status.Error(codes.Code(c.Req.GetKind()), fmt.Sprintf("stream ends ☃ %d", c.Req.GetKind()))
+		})
+		for code := 1; code <= 16; code++ {
+			for _, m := range []string{"CorrStream", "CorrStreamCustom"} {
+				tok := h.NewToken()
+				req := &puppet.Req{Call: tok, Seq: tok, Kind: uint32(code)}
+				var invs atomic.Int64
+				cl.QS.Register(&h.CallMon{Token: tok, Orig: req, Decide: func(inv *h.Inv) (bool, int) { invs.Add(1); return false, len(inv.Keys) }})
+				ctx, cancel := context.WithTimeout(context.Background(), 5*time.Second)
+				co := StartCorr(cl.Cfg, m, ctx, req, nil)
+				select {
+				case <-co.Done():
+				case <-ctx.Done():
+				}
+				_, _, cerr := co.Raw()
+				cancel()
+				cl.QS.Unregister(tok)
+				want := fmt.Sprintf("rpc error: code = %s desc = stream ends ☃ %d", codes.Code(code), code)
+				pe, ok := parseQCErr(errText(cerr))
+				good := ok && len(pe.Nodes) == 2
+				for _, lines := range pe.Nodes {
+					good = good && len(lines) == 1 && lines[0] == want
+				}
+				if got := invs.Load(); got != 2*K {
+					R.Violate("streamed-replies-not-delivered-as-successes", fmt.Sprintf("%s (server receive buffer %d): 2 handlers sent %d replies each and then failed with %s; the quorum function was shown %d replies instead of %d; call ended with %v", m, rbuf, K, codes.Code(code), got, 2*K, cerr), nil)
+				} else if !good {
+					R.Violate("handler-status-not-preserved", fmt.Sprintf("%s: streaming handlers failed with %q, caller saw %v", m, want, cerr), nil)
+				}
+				R.Eval(fmt.Sprintf("e2e-stream-status|%d|%s|%d", code, m, rbuf), true)
 			}
 		}
 		cl.Close()
